@@ -53,6 +53,11 @@ def body(rng, depth, headers, here, budget, allow_include=True, dangling=None, u
             if dangling is not None and (not headers or rng.random() < 0.25):
                 nm = f"missing{rng.randint(0, 3)}.h"
                 line = f'#include "{nm}"' if rng.random() < 0.5 else f"#include <{nm}>"
+                if rng.random() < 0.3:
+                    # computed form: the kind of the include (quote / angle) is known only after macro expansion
+                    mac = f"MISSING_HDR{rng.randint(0, 3)}"
+                    out += [f"#undef {mac}", f"#define {mac} {line.split(' ', 1)[1]}"]
+                    line = f"#include {mac}"
                 out.append(line)
                 dangling.append((here, line))
             elif headers:
@@ -162,7 +167,9 @@ def write_codebase(root, desc, platform_order=None, file_order=None):
     if platform_order is not None:
         plats = platform_order
     for name in plats:
-        entries = [dict(e, directory=root) for e in desc["platforms"][name]]
+        # "builddir": the entry's working directory is that sub-directory of the root (it need not exist)
+        entries = [{k: v for k, v in dict(e, directory=os.path.join(root, e["builddir"]) if e.get("builddir") else root).items() if k != "builddir"}
+                   for e in desc["platforms"][name]]
         with open(os.path.join(root, f"{name}.json"), "w") as f:
             json.dump(entries, f)
     with open(os.path.join(root, "analysis.toml"), "w") as f:
